@@ -34,10 +34,12 @@ def std_outputs(mode, line):
 class Dev(CliDevice):
     """CliDevice + confirmation questions (for send_interactive / send_and_read / read_callback)"""
 
-    def __init__(self, *a, confirms=None, **k):
+    def __init__(self, *a, confirms=None, pw_attempts=3, reject_text="% Bad secrets", **k):
         super().__init__(*a, **k)
         self.confirms = dict(confirms or {})      # command -> (question text, answer is hidden)
         self._q = None
+        self.pw_attempts = pw_attempts            # how many passwords the device asks for before it gives up and re-displays the OLD prompt
+        self.reject_text = reject_text
 
     def on_write(self, data):
         out = bytearray()
@@ -55,6 +57,11 @@ class Dev(CliDevice):
 
     def _execute(self, raw):
         line = raw.decode("utf-8", "replace")
+        if self.pending is not None and line != self.enable_password and self.pw_tries + 1 >= self.pw_attempts:
+            # rejected for the last time: error text, then the prompt of the level the session is still in
+            self.pending, self.pw_tries = None, 0
+            self.events.append(("password", False))
+            return self._frame(self.reject_text)
         if self._q is not None and self.pending is None:
             q, self._q = self._q, None
             self.exec_log.append((self.mode_name(), "<answer>" + ("*" if q[1] else line)))
@@ -121,7 +128,8 @@ def make_device(scn):
               login_mode=d.get("login_mode"), outputs=std_outputs, nl=d.get("nl", "\n").encode(),
               enable_password=d.get("enable_password"), refuse={tuple(x) for x in d.get("refuse", [])},
               fail_lines=set(d.get("fail_lines", [])), banner=d.get("banner", "").encode(),
-              confirms={k: tuple(v) for k, v in (d.get("confirms") or {}).items()}, trailing=d.get("trailing"))
+              confirms={k: tuple(v) for k, v in (d.get("confirms") or {}).items()}, trailing=d.get("trailing"),
+              pw_attempts=d.get("pw_attempts", 3), reject_text=d.get("reject_text", "% Bad secrets"))
     if scn.get("telnet"):
         return LoginDev(login=scn["telnet"].get("dev"), **kw)
     return Dev(**kw)
